@@ -1,3 +1,281 @@
-/-! C20 model (stub) -/
+/-!
+# C20 — model of the collector run loop (`otelcol/collector.go`)
+
+A labelled transition system whose `step` labels are the statements of the goroutine that executes
+`Collector.Run` (one label per `setCollectorState`, per call into the config provider / service, per
+`select` receive), and whose other labels are what *other* goroutines may do at any moment:
+call `Shutdown()` (two steps, as in the code: read `state`, then `close(shutdownChan)` under `recover`),
+deliver a config-watch notification, an OS signal, an asynchronous component error, cancel the context.
+
+`Variant` selects the guard of `Shutdown()`:
+* `pinned` — `state == Running || state == Starting` (the code at the pinned commit),
+* `fixed`  — `state != Closed` (the repaired code, commit `fix: honour Shutdown() during a reload`).
+
+Core Lean only.
+-/
 namespace OtelVerif.C20
+
+/-- `otelcol.State` -/
+inductive CState | starting | running | closing | closed
+  deriving DecidableEq, Repr, Inhabited
+
+def CState.name : CState → String
+  | .starting => "Starting" | .running => "Running" | .closing => "Closing" | .closed => "Closed"
+
+inductive Variant | pinned | fixed
+  deriving DecidableEq, Repr
+
+/-- the guard of `Collector.Shutdown` -/
+def Variant.honours : Variant → CState → Bool
+  | .pinned, st => st == .running || st == .starting
+  | .fixed, st => st != .closed
+
+/-- branches of the `select` in `Run` (the first five can be posted from outside) -/
+inductive Ev | watchOk | watchErr | hup | term | async | shutdown | ctx
+  deriving DecidableEq, Repr
+
+def Ev.name : Ev → String
+  | .watchOk => "watch" | .watchErr => "watcherr" | .hup => "hup" | .term => "term" | .async => "async"
+  | .shutdown => "shutdown" | .ctx => "ctx"
+
+def Ev.ofName : String → Option Ev
+  | "watch" => some .watchOk | "watcherr" => some .watchErr | "hup" => some .hup | "term" => some .term
+  | "async" => some .async | "shutdown" => some .shutdown | "ctx" => some .ctx | _ => none
+
+/-- does taking this branch leave the loop (`break LOOP` / `return col.shutdown(...)`)? -/
+def Ev.stops : Ev → Bool
+  | .watchOk | .hup => false
+  | _ => true
+
+/-- program counter of the goroutine running `Run`; `rl = true` inside `reloadConfiguration` -/
+inductive Pc
+  | idle                  -- Run not called yet
+  | setup1 (rl : Bool)    -- setupConfigurationComponents: next `setCollectorState(StateStarting)`
+  | setup2 (rl : Bool)    -- next: Factories(), configProvider.Get, Validate, Marshal, service.New
+  | setup3 (rl : Bool)    -- next: service.Start
+  | setupSd (rl : Bool)   -- Start failed; next: `col.service.Shutdown` of the service just created
+  | setup4 (rl : Bool)    -- next: `setCollectorState(StateRunning)`
+  | initFail              -- Run: initial set-up failed; next `setCollectorState(StateClosed)`, return err
+  | select                -- blocked in / about to enter the `select`
+  | reload1               -- reloadConfiguration: next `setCollectorState(StateClosing)`
+  | reload2               -- next: `col.service.Shutdown` (the retiring service)
+  | shut1                 -- shutdown: next `setCollectorState(StateClosing)`
+  | shut2                 -- next: `configProvider.Shutdown`
+  | shut3                 -- next: `col.service.Shutdown`
+  | shut4                 -- next: `setCollectorState(StateClosed)`, return errs
+  | done                  -- Run has returned
+  deriving DecidableEq, Repr
+
+/-- events of the global log (what the instrumented components / provider of the harness record).
+A component is `(generation, index)`; the model has one component (index 0) per service. -/
+inductive TEv
+  | created (g c : Nat)
+  | started (g c : Nat)
+  | shut (g c : Nat)         -- Shutdown of that component returned
+  | prov                     -- config provider Shutdown returned
+  | st (s : CState)          -- sampled GetState()
+  | call                     -- a Shutdown() call returned
+  | stop                     -- the select took a branch that leaves the loop
+  | quiet                    -- observation: the history is over, nothing is pending, Run sits in the select
+  | ret (ok : Bool)          -- Run returned (nil / error)
+  deriving DecidableEq, Repr
+
+structure S where
+  pc : Pc := .idle
+  st : CState := .starting
+  chanClosed : Bool := false
+  /-- goroutines inside `Shutdown()` that passed the guard and have not executed `close` yet -/
+  closers : Nat := 0
+  nWatchOk : Nat := 0
+  nWatchErr : Nat := 0
+  nHup : Nat := 0
+  nTerm : Nat := 0
+  nAsync : Nat := 0
+  ctxDone : Bool := false
+  /-- number of `setupConfigurationComponents` executions begun = generation of the configuration -/
+  gen : Nat := 0
+  /-- `col.service` (generation of the service it points to) -/
+  svc : Option Nat := none
+  /-- generations that have live components -/
+  live : List Nat := []
+  created : List Nat := []
+  /-- generation of every completed `service.Shutdown`, in order -/
+  sdLog : List Nat := []
+  provSd : Nat := 0
+  everRunning : Bool := false
+  /-- a `Shutdown()` call was made after Running had been reached -/
+  req : Bool := false
+  stop : Option Ev := none
+  errs : Bool := false
+  ret : Option Bool := none
+  /-- nil `col.service` dereferenced -/
+  panic : Bool := false
+  log : List TEv := []
+  deriving Repr
+
+def init : S := {}
+
+inductive Label
+  | call                  -- a goroutine enters Shutdown(): reads state, decides
+  | close                 -- such a goroutine executes `close(col.shutdownChan)` (double close is recovered)
+  | post (e : Ev)
+  | cancel
+  | begin                 -- Run is called
+  | step (ok : Bool)      -- the Run goroutine executes its next statement; `ok` = outcome if it can fail
+  | pick (e : Ev)         -- the select receives on a ready branch
+  deriving DecidableEq, Repr
+
+def S.emit (s : S) (e : TEv) : S := { s with log := s.log ++ [e] }
+
+/-- `col.service.Shutdown(ctx)` -/
+def svcShutdown (s : S) : S :=
+  match s.svc with
+  | some g => S.emit { s with live := s.live.erase g, sdLog := s.sdLog ++ [g] } (.shut g 0)
+  | none => { s with panic := true }
+
+def failSetup (s : S) (rl : Bool) : S :=
+  if rl then S.emit { s with pc := .done, ret := some false } (.ret false) else { s with pc := .initFail }
+
+def setSt (s : S) (c : CState) : S := S.emit { s with st := c } (.st c)
+
+def stepRun (s : S) (ok : Bool) : Option S :=
+  match s.pc with
+  | .idle | .select | .done => none
+  | .setup1 rl => if ok then some { setSt s .starting with gen := s.gen + 1, pc := .setup2 rl } else none
+  | .setup2 rl =>
+    if ok then
+      some <| S.emit { s with svc := some s.gen, live := s.live ++ [s.gen], created := s.created ++ [s.gen], pc := .setup3 rl }
+        (.created s.gen 0)
+    else some (failSetup s rl)
+  | .setup3 rl =>
+    if ok then some <| S.emit { s with pc := .setup4 rl } (.started s.gen 0)
+    else some <| S.emit { s with pc := .setupSd rl } (.started s.gen 0)
+  | .setupSd rl => some (failSetup (svcShutdown s) rl)
+  | .setup4 _ => if ok then some { setSt s .running with everRunning := true, pc := .select } else none
+  | .initFail => if ok then some <| S.emit { setSt s .closed with pc := .done, ret := some false } (.ret false) else none
+  | .reload1 => if ok then some { setSt s .closing with pc := .reload2 } else none
+  | .reload2 =>
+    let s' := svcShutdown s
+    if ok then some { s' with pc := .setup1 true }
+    else some <| S.emit { s' with pc := .done, ret := some false } (.ret false)
+  | .shut1 => if ok then some { setSt s .closing with pc := .shut2 } else none
+  | .shut2 => some <| S.emit { s with provSd := s.provSd + 1, errs := s.errs || !ok, pc := .shut3 } .prov
+  | .shut3 => some { svcShutdown s with errs := s.errs || !ok, pc := .shut4 }
+  | .shut4 =>
+    if ok then some <| S.emit { setSt s .closed with pc := .done, ret := some (!s.errs) } (.ret (!s.errs)) else none
+
+def leave (s : S) (e : Ev) : S := S.emit { s with pc := .shut1, stop := some e } .stop
+
+def pickEv (s : S) : Ev → Option S
+  | .watchOk => if s.nWatchOk > 0 then some { s with nWatchOk := s.nWatchOk - 1, pc := .reload1 } else none
+  | .hup => if s.nHup > 0 then some { s with nHup := s.nHup - 1, pc := .reload1 } else none
+  | .watchErr => if s.nWatchErr > 0 then some (leave { s with nWatchErr := s.nWatchErr - 1 } .watchErr) else none
+  | .term => if s.nTerm > 0 then some (leave { s with nTerm := s.nTerm - 1 } .term) else none
+  | .async => if s.nAsync > 0 then some (leave { s with nAsync := s.nAsync - 1 } .async) else none
+  | .shutdown => if s.chanClosed then some (leave s .shutdown) else none
+  | .ctx => if s.ctxDone then some (leave s .ctx) else none
+
+def postEv (s : S) : Ev → Option S
+  | .watchOk => some { s with nWatchOk := s.nWatchOk + 1 }
+  | .watchErr => some { s with nWatchErr := s.nWatchErr + 1 }
+  | .hup => some { s with nHup := s.nHup + 1 }
+  | .term => some { s with nTerm := s.nTerm + 1 }
+  | .async => some { s with nAsync := s.nAsync + 1 }
+  | .shutdown | .ctx => none
+
+def fire (v : Variant) (s : S) : Label → Option S
+  | .call =>
+    let s := S.emit { s with req := s.req || s.everRunning } .call
+    some (if v.honours s.st then { s with closers := s.closers + 1 } else s)
+  | .close => if s.closers > 0 then some { s with closers := s.closers - 1, chanClosed := true } else none
+  | .post e => postEv s e
+  | .cancel => some { s with ctxDone := true }
+  | .begin => if s.pc = .idle then some { s with pc := .setup1 false } else none
+  | .step ok => stepRun s ok
+  | .pick e => if s.pc = .select then pickEv s e else none
+
+def runFrom (v : Variant) (s : S) : List Label → Option S
+  | [] => some s
+  | l :: ls => (fire v s l).bind (fun s' => runFrom v s' ls)
+
+def run (v : Variant) (ls : List Label) : Option S := runFrom v init ls
+
+def Reachable (v : Variant) (s : S) : Prop := ∃ ls, run v ls = some s
+
+/-- is some branch of the select ready? -/
+def S.anyReady (s : S) : Bool :=
+  s.nWatchOk > 0 || s.nWatchErr > 0 || s.nHup > 0 || s.nTerm > 0 || s.nAsync > 0 || s.chanClosed || s.ctxDone
+
+/-! ## trace monitor (table-independent statement of the property on an event log) -/
+
+structure Mon where
+  live : List (Nat × Nat) := []       -- started, not yet shut down
+  shutOnce : List (Nat × Nat) := []   -- every component whose Shutdown returned
+  prov : Nat := 0
+  st : CState := .starting
+  everRunning : Bool := false
+  req : Bool := false                 -- Shutdown() returned after Running had been reached
+  reqSt : CState := .starting         -- state sampled at the first such call
+  stopped : Bool := false
+  ret : Option Bool := none
+  deriving Repr
+
+/-- failure classes of the monitor -/
+inductive Bad
+  | overlapCreate (g g' : Nat)     -- component of g created while a component of g' is live
+  | overlapStart (g g' : Nat)
+  | doubleShutdown (g c : Nat)
+  | doubleProv
+  | lost (atSt : CState)             -- quiescent in the select although Shutdown() was called after Running (state at the call)
+  | retLive (g : Nat)              -- Run returned while a started component is not shut down
+  | stopNotClosed                  -- stopped by a listed reason, Run returned, state ≠ Closed
+  | stopProv (n : Nat)             -- ... providers shut down n ≠ 1 times
+  deriving Repr, DecidableEq
+
+def Mon.step (m : Mon) : TEv → Except Bad Mon
+  | .created g _ =>
+    match m.live.find? (fun p => p.1 ≠ g) with
+    | some p => .error (.overlapCreate g p.1)
+    | none => .ok m
+  | .started g c =>
+    match m.live.find? (fun p => p.1 ≠ g) with
+    | some p => .error (.overlapStart g p.1)
+    | none => .ok { m with live := (g, c) :: m.live }
+  | .shut g c =>
+    if (g, c) ∈ m.shutOnce then .error (.doubleShutdown g c)
+    else .ok { m with live := m.live.filter (· ≠ (g, c)), shutOnce := (g, c) :: m.shutOnce }
+  | .prov => if m.prov ≥ 1 then .error .doubleProv else .ok { m with prov := m.prov + 1 }
+  | .st s => .ok { m with st := s, everRunning := m.everRunning || s == .running }
+  | .call => .ok { m with req := m.req || m.everRunning, reqSt := if m.req then m.reqSt else m.st }
+  | .quiet => if m.req && m.ret.isNone then .error (.lost m.reqSt) else .ok m
+  | .stop => .ok { m with stopped := true }
+  | .ret ok =>
+    match m.live with
+    | p :: _ => .error (.retLive p.1)
+    | [] =>
+      if m.stopped && m.st != .closed then .error .stopNotClosed
+      else if m.stopped && m.prov != 1 then .error (.stopProv m.prov)
+      else .ok { m with ret := some ok }
+
+def Mon.run (m : Mon) : List TEv → Except Bad Mon
+  | [] => .ok m
+  | e :: es => match m.step e with
+    | .ok m' => m'.run es
+    | .error b => .error b
+
+def check (t : List TEv) : Bool := match Mon.run {} t with | .ok _ => true | .error _ => false
+
+def Bad.sig : Bad → String
+  | .overlapCreate g g' => s!"C20/overlap/create-while-other-generation-live created={g} live={g'}"
+  | .overlapStart g g' => s!"C20/overlap/start-while-other-generation-live started={g} live={g'}"
+  | .doubleShutdown g c => s!"C20/service/component-shutdown-twice gen={g} comp={c}"
+  | .doubleProv => "C20/provider/shutdown-twice"
+  | .lost .closing => "C20/shutdown/lost-during-reload a Shutdown() made while a reload had the state at Closing was dropped"
+  | .lost st => s!"C20/shutdown/lost-other state-at-call={st.name}"
+  | .retLive g => s!"C20/return/started-component-not-shut-down gen={g}"
+  | .stopNotClosed => "C20/stop/not-closed"
+  | .stopProv n => s!"C20/stop/provider-shutdowns={n}"
+
+def checkE (t : List TEv) : Except Bad Mon := Mon.run {} t
+
 end OtelVerif.C20
